@@ -1,15 +1,15 @@
 import Fv.Lemmas.TopicStep
-/-! Routing invariant: as long as no receiver is `close()`d (drops are fine), the topic lists and
-the receivers' own subscription sets agree. -/
+/-! Routing invariant: the topic lists and the receivers' own subscription sets agree; as long as
+`subscribe` is not called on a closed handle, a closed receiver holds no subscription. -/
 namespace Fv.Chan.Topic
 
-/-- per live receiver `x` with id `r`. The second and third clause need a history without
-receiver `close()`; they are guarded by `P` (`P := True` for such histories, `P := False` for
-arbitrary ones, where only the first and last clause are claimed). -/
+/-- per live receiver `x` with id `r`. The second clause needs a history in which `subscribe` is
+never called on a closed handle; it is guarded by `P` (`P := True` for such histories,
+`P := False` for arbitrary ones). -/
 def RxOk (P : Prop) (s : St) (r : Nat) (x : Rx) : Prop :=
   (x.hasDisp = false → dispAlive s = false) ∧
-  (P → x.hasDisp = true → x.closed = false) ∧
-  (P → dispAlive s = true → ∀ t, (t, r) ∈ s.regs → t ∈ x.subs ∧ x.hasDisp = true) ∧
+  (P → dispAlive s = true → x.closed = true → x.subs = []) ∧
+  (dispAlive s = true → ∀ t, (t, r) ∈ s.regs → t ∈ x.subs ∧ x.hasDisp = true) ∧
   (x.hasDisp = true → dispAlive s = true → ∀ t, t ∈ x.subs → (t, r) ∈ s.regs)
 
 structure RI (P : Prop) (s : St) : Prop where
@@ -34,11 +34,8 @@ theorem RI_frame (s s' : St) (hr : s'.regs = s.regs) (hlen : s.rxs.length ≤ s'
     cases hda : dispAlive s' with
     | false => rfl
     | true => rw [hxd] at h1; rw [a h1] at hd; exact absurd (hd hda) (by simp)
-  · intro hP h1
-    cases hc : y.closed with
-    | false => rfl
-    | true => rw [hxd] at h1; rw [b hP h1] at hxc; exact absurd (hxc hc) (by simp)
-  · intro hP h2 t ht; rw [hr] at ht; rw [hxd, hxs]; exact c hP (hd h2) t ht
+  · intro hP h2 hc; rw [hxs]; exact b hP (hd h2) (hxc hc)
+  · intro h2 t ht; rw [hr] at ht; rw [hxd, hxs]; exact c (hd h2) t ht
   · intro h1 h2 t ht; rw [hr]; rw [hxd] at h1; rw [hxs] at ht; exact d h1 (hd h2) t ht
 
 theorem dispAlive_congr (s s' : St) (h : s'.txs = s.txs) : dispAlive s' = dispAlive s := by
@@ -51,7 +48,7 @@ theorem isLive_of_get (rxs : List Rx) (q : Nat) (y : Rx) (hy : rxs[q]? = some y)
   simp [isLive, hy]
 
 theorem RI_subscribeCore (s : St) (r : Nat) (t : Topic) (x0 : Rx) (hx0 : s.rxs[r]? = some x0) (hl0 : x0.live = true)
-    {P : Prop} (h : RI P s) : RI P (subscribeCore s r t) := by
+    {P : Prop} (hc0 : P → x0.closed = false) (h : RI P s) : RI P (subscribeCore s r t) := by
   by_cases hm : t ∈ x0.subs
   · rw [subscribeCore_of_mem s r t x0 hx0 hm]; exact h
   have hrxs := subscribeCore_rxs_of_not_mem s r t x0 hx0 hm
@@ -74,10 +71,10 @@ theorem RI_subscribeCore (s : St) (r : Nat) (t : Topic) (x0 : Rx) (hx0 : s.rxs[r
       · subst hq
         simp only [if_true, hx0, Option.map_some, Option.some.injEq] at hy
         subst hy
-        refine ⟨fun h1 => by simp [hu'.1] at h1, b0, ?_, ?_⟩
-        · intro hP _ u hq
+        refine ⟨fun h1 => by simp [hu'.1] at h1, (fun hP _ hc => by rw [hc0 hP] at hc; cases hc), ?_, ?_⟩
+        · intro _ u hq
           rcases (hmem u r).1 hq with ⟨hq, _⟩ | hq
-          · exact ⟨List.mem_append_left _ (c0 hP hu'.2 u hq).1, hu'.1⟩
+          · exact ⟨List.mem_append_left _ (c0 hu'.2 u hq).1, hu'.1⟩
           · cases hq; exact ⟨by simp, hu'.1⟩
         · intro _ _ u hq
           simp only [List.mem_append, List.mem_singleton] at hq
@@ -87,9 +84,9 @@ theorem RI_subscribeCore (s : St) (r : Nat) (t : Topic) (x0 : Rx) (hx0 : s.rxs[r
       · simp only [hq, if_false] at hy
         obtain ⟨a, b, c, d⟩ := h.ok q y hy hl
         refine ⟨a, b, ?_, ?_⟩
-        · intro hP h2 u hm'
+        · intro h2 u hm'
           rcases (hmem u q).1 hm' with ⟨hm', _⟩ | hm'
-          · exact c hP h2 u hm'
+          · exact c h2 u hm'
           · cases hm'; exact absurd rfl hq
         · intro h1 h2 u hm'
           exact (hmem u q).2 (Or.inl ⟨d h1 h2 u hm', Or.inr (by rw [isLive_of_get _ _ _ hy]; exact hl)⟩)
@@ -103,8 +100,8 @@ theorem RI_subscribeCore (s : St) (r : Nat) (t : Topic) (x0 : Rx) (hx0 : s.rxs[r
     · subst hq
       simp only [if_true, hx0, Option.map_some, Option.some.injEq] at hy
       subst hy
-      refine ⟨a0, b0, ?_, ?_⟩
-      · intro hP h2 u hq; exact ⟨List.mem_append_left _ (c0 hP h2 u hq).1, (c0 hP h2 u hq).2⟩
+      refine ⟨a0, (fun hP _ hc => by rw [hc0 hP] at hc; cases hc), ?_, ?_⟩
+      · intro h2 u hq; exact ⟨List.mem_append_left _ (c0 h2 u hq).1, (c0 h2 u hq).2⟩
       · intro h1 h2
         have : upgradable s x0 = true := (upgradable_iff s x0).2 ⟨h1, h2⟩
         rw [hu] at this; cases this
@@ -133,12 +130,12 @@ theorem RI_unsubscribeCore (s : St) (r : Nat) (t : Topic) (x0 : Rx) (hx0 : s.rxs
       · subst hq
         simp only [if_true, hx0, Option.map_some, Option.some.injEq] at hy
         subst hy
-        refine ⟨a0, b0, ?_, ?_⟩
-        · intro hP _ u hq
+        refine ⟨a0, (fun hP h2 hc => by have := b0 hP h2 hc; simp [this]), ?_, ?_⟩
+        · intro _ u hq
           obtain ⟨hq1, hq2⟩ := (hmem u r).1 hq
           refine ⟨?_, hu'.1⟩
           simp only [List.mem_filter, bne_iff_ne, ne_eq]
-          refine ⟨(c0 hP hu'.2 u hq1).1, ?_⟩
+          refine ⟨(c0 hu'.2 u hq1).1, ?_⟩
           rcases hq2 with hq2 | ⟨_, hq2⟩
           · exact hq2
           · exact absurd rfl hq2
@@ -147,7 +144,7 @@ theorem RI_unsubscribeCore (s : St) (r : Nat) (t : Topic) (x0 : Rx) (hx0 : s.rxs
           exact (hmem u r).2 ⟨d0 hu'.1 hu'.2 u hq.1, Or.inl hq.2⟩
       · simp only [hq, if_false] at hy
         obtain ⟨a, b, c, d⟩ := h.ok q y hy hl
-        refine ⟨a, b, fun hP h2 u hm' => c hP h2 u ((hmem u q).1 hm').1, ?_⟩
+        refine ⟨a, b, fun h2 u hm' => c h2 u ((hmem u q).1 hm').1, ?_⟩
         intro h1 h2 u hm'
         exact (hmem u q).2 ⟨d h1 h2 u hm', Or.inr ⟨by rw [isLive_of_get _ _ _ hy]; exact hl, fun e => hq e.symm⟩⟩
     | false =>
@@ -160,9 +157,9 @@ theorem RI_unsubscribeCore (s : St) (r : Nat) (t : Topic) (x0 : Rx) (hx0 : s.rxs
       · subst hq
         simp only [if_true, hx0, Option.map_some, Option.some.injEq] at hy
         subst hy
-        refine ⟨a0, b0, ?_, ?_⟩
-        · intro hP h2 u hq
-          have : upgradable s x0 = true := (upgradable_iff s x0).2 ⟨(c0 hP h2 u hq).2, h2⟩
+        refine ⟨a0, (fun hP h2 hc => by have := b0 hP h2 hc; simp [this]), ?_, ?_⟩
+        · intro h2 u hq
+          have : upgradable s x0 = true := (upgradable_iff s x0).2 ⟨(c0 h2 u hq).2, h2⟩
           rw [hu] at this; cases this
         · intro h1 h2
           have : upgradable s x0 = true := (upgradable_iff s x0).2 ⟨h1, h2⟩
@@ -170,5 +167,10 @@ theorem RI_unsubscribeCore (s : St) (r : Nat) (t : Topic) (x0 : Rx) (hx0 : s.rxs
       · simp only [hq, if_false] at hy
         exact h.ok q y hy hl
   · rw [unsubscribeCore_noop s r t x0 hx0 hm]; exact h
+
+
+theorem RI_weaken (s : St) {P Q : Prop} (hqp : Q → P) (h : RI P s) : RI Q s :=
+  ⟨h.inRange, fun r x hx hl => ⟨(h.ok r x hx hl).1, fun hq => (h.ok r x hx hl).2.1 (hqp hq), (h.ok r x hx hl).2.2.1,
+    (h.ok r x hx hl).2.2.2⟩⟩
 
 end Fv.Chan.Topic
